@@ -355,6 +355,9 @@ func (in *Interp) resetPath(prefix []dec) {
 	in.lockHist = nil
 	in.eagerSmallRem = true
 	in.inPure = false
+	in.accesses = map[slotKey][]accessRec{}
+	in.syncVC = map[interface{}]vclock{}
+	in.atomicAccess = false
 	in.pureTabs = map[string][]*Term{}
 	in.lockTrace = false
 	in.raceCheck = false
